@@ -15,7 +15,7 @@ pub const INFO: PropInfo = PropInfo {
     quick_runs: 40_000,
     thorough_runs: 1_500_000,
     rule: "each run = the real howl with 0..6 client connections in tape-chosen stages (connecting, mid-request, inside a handler sleeping 0..20 s, idle keep-alive, half-sent request) and a simulated SIGINT at a tape-chosen instant, \
-           the steps of the real Ctrl-C closure (set flag / take waker / wake) interleaved with UntilInterrupt::poll (poll accept / read flag / publish waker) at hook K2's scheduling points; optionally a second SIGINT and late connection attempts; \
+           the steps of the real Ctrl-C closure (set flag / take waker / wake) interleaved with UntilInterrupt::poll (poll accept / read flag / publish waker) at hook K2's scheduling points; optionally a second SIGINT, late connection attempts and failing accept calls (ECONNABORTED / EMFILE-like) around the interrupt; \
            non-trivial = the interrupt was delivered and its handler finished; distinct = distinct hash of (client plans, signal time, interleaving decisions)",
     state_measure: "distinct orders of the scheduling points of the closure (sig:*) and of the poll (poll:*) observed while a handler was running, first poll and later polls counted separately",
     assumptions: &[
@@ -23,7 +23,7 @@ pub const INFO: PropInfo = PropInfo {
         "all atomics involved are SeqCst, so interleaving at the six scheduling points is complete for this protocol (DESIGN.md 2.5)",
         "the oracle names no deadline while sessions are still running; every session ends by itself (client closes, or keep-alive timeout)",
     ],
-    expected_probes: &["c18.signal_during_first_poll", "c18.signal_between_checked_and_published", "c18.sessions_in_flight_at_signal", "c18.late_connect_refused", "c18.second_signal", "c18.slow_handler_finished_after_signal", "c18.spinner_rule_engaged", "c18.signal_with_no_sessions", "c18.session_ended_by_panic", "c18.sse_stream_in_flight"],
+    expected_probes: &["c18.signal_during_first_poll", "c18.signal_between_checked_and_published", "c18.sessions_in_flight_at_signal", "c18.late_connect_refused", "c18.second_signal", "c18.slow_handler_finished_after_signal", "c18.spinner_rule_engaged", "c18.signal_with_no_sessions", "c18.session_ended_by_panic", "c18.sse_stream_in_flight", "c18.accept_failed"],
 };
 
 #[derive(Clone, Debug, Serialize, Deserialize)]
@@ -58,6 +58,9 @@ pub struct Scenario {
     /// the first SIGINT is already due when the world starts (it can then reach the handler thread inside the very first poll)
     #[serde(default)]
     pub due_at_start: bool,
+    /// fault: `accept` fails at these instants (ms); 0 ConnectionAborted, 1 "too many open files"
+    #[serde(default)]
+    pub accept_errors: Vec<(u64, u8)>,
 }
 
 pub fn generate(_cfg: &RunCfg, _out: &mut Outcome) -> Scenario {
@@ -84,7 +87,12 @@ pub fn generate(_cfg: &RunCfg, _out: &mut Outcome) -> Scenario {
         })
         .collect();
     let due_at_start = sigint_ms == 0 && t::chance(1, 2);
-    Scenario { clients, sigint_ms, second_sigint_after_ms: if t::chance(1, 5) { Some(t::pick(&[0u64, 1, 100, 10_000])) } else { None }, server_first: !due_at_start && t::chance(1, 2), due_at_start }
+    let accept_errors: Vec<(u64, u8)> = if t::chance(1, 4) {
+        (0..1 + t::draw(3)).map(|_| (match t::draw(3) { 0 => sigint_ms.saturating_sub(t::pick(&[0u64, 1, 2])), 1 => sigint_ms + t::pick(&[0u64, 1, 50]), _ => t::pick(&[0u64, 1, 3, 40, 450]) }, t::draw(2) as u8)).collect()
+    } else {
+        Vec::new()
+    };
+    Scenario { clients, sigint_ms, second_sigint_after_ms: if t::chance(1, 5) { Some(t::pick(&[0u64, 1, 100, 10_000])) } else { None }, server_first: !due_at_start && t::chance(1, 2), due_at_start, accept_errors }
 }
 
 pub fn run(cfg: &RunCfg, direct: Option<&serde_json::Value>) -> Outcome {
@@ -112,6 +120,7 @@ async fn slow(req: &Request) -> &'static str {
 #[derive(Default)]
 struct CObs {
     refused: bool,
+    refused_at_step: Option<u64>,
     connected_at_step: Option<u64>,
     results: Vec<Result<Resp, RecvErr>>,
     expected_responses: usize,
@@ -119,6 +128,8 @@ struct CObs {
 }
 
 thread_local! {
+    /// executor step at which the first SIGINT reached the handler thread
+    static FIRST_DELIVERY_STEP: std::cell::Cell<Option<u64>> = const { std::cell::Cell::new(None) };
     /// SIGINTs whose time has come but which the (simulated) kernel has not yet handed to the handler thread
     static DUE: std::cell::Cell<u32> = const { std::cell::Cell::new(0) };
 }
@@ -128,6 +139,10 @@ fn try_deliver() -> bool {
         simcore::with(|w| {
             w.count("fault.sigint_delivered");
             w.note("SIGINT delivered");
+            if FIRST_DELIVERY_STEP.with(|f| f.get()).is_none() {
+                let st = w.steps;
+                FIRST_DELIVERY_STEP.with(|f| f.set(Some(st)));
+            }
         });
         return true;
     }
@@ -139,6 +154,7 @@ fn execute(sc: &Scenario, out: &mut Outcome) {
     out.scenario = serde_json::to_value(sc).unwrap_or(serde_json::Value::Null);
     out.scenario_hash = rt::fnv64(serde_json::to_string(sc).unwrap_or_default().as_bytes());
     signal::reset();
+    FIRST_DELIVERY_STEP.with(|f| f.set(None));
 
     // interleaving decisions at the poll's scheduling points (executor thread)
     let first_poll_seen = Rc::new(RefCell::new(false));
@@ -249,6 +265,16 @@ fn execute(sc: &Scenario, out: &mut Outcome) {
         }
     }
 
+    for (at_ms, kind) in &sc.accept_errors {
+        let kind = if *kind == 0 { std::io::ErrorKind::ConnectionAborted } else { std::io::ErrorKind::Other };
+        simcore::with(|w| {
+            w.at(at_ms * MS, Box::new(move || {
+                simcore::with(|w| {
+                    w.inject_accept_error(rt::ADDR, kind);
+                });
+            }))
+        });
+    }
     let obs: Vec<Rc<RefCell<CObs>>> = sc.clients.iter().map(|_| Rc::new(RefCell::new(CObs::default()))).collect();
     for (i, plan) in sc.clients.iter().enumerate() {
         let o = obs[i].clone();
@@ -258,7 +284,9 @@ fn execute(sc: &Scenario, out: &mut Outcome) {
             let mut c = match Client::connect(rt::ADDR, ConnCfg::default()).await {
                 Ok(c) => c,
                 Err(_) => {
-                    o.borrow_mut().refused = true;
+                    let mut ob = o.borrow_mut();
+                    ob.refused = true;
+                    ob.refused_at_step = Some(simcore::with(|w| w.steps));
                     return;
                 }
             };
@@ -422,6 +450,27 @@ fn execute(sc: &Scenario, out: &mut Outcome) {
     }
     // safety: howl returned only after every spawned session finished
     let sds = server_done_step.unwrap();
+    // ... and only after an interrupt: nothing else (a failing accept, a session that ended badly) stops the server
+    let first_delivery = FIRST_DELIVERY_STEP.with(|f| f.get());
+    if simcore::with(|w| w.counters.get("fault.accept_error").copied().unwrap_or(0)) > 0 {
+        out.probe("c18.accept_failed");
+    }
+    match first_delivery {
+        Some(fd) if sds >= fd => {}
+        _ => {
+            out.violate("stops-only-after-interrupt", "howl-returned-before-the-interrupt", format!("howl returned at step {sds}, the first interrupt reached the handler at step {first_delivery:?}; accept failures injected: {:?}", sc.accept_errors));
+            return;
+        }
+    }
+    for (i, _) in sc.clients.iter().enumerate() {
+        let ob = obs[i].borrow();
+        if let (Some(rs), Some(fd)) = (ob.refused_at_step, first_delivery) {
+            if rs < fd {
+                out.violate("stops-only-after-interrupt", "connection-refused-before-the-interrupt", format!("client {i} was refused at step {rs}, before the first interrupt reached the handler (step {fd}); accept failures injected: {:?}", sc.accept_errors));
+                return;
+            }
+        }
+    }
     for (id, done, _) in &sessions {
         match done {
             Some(d) if *d <= sds => {}
